@@ -115,7 +115,7 @@ func c19n(e *env) {
 		// several client connections (each with its own cluster handler over the same node set)
 		// route keys at the same time: every lookup is still the function of key and node set
 		if n >= 2 {
-			const workers, per = 8, 150
+			const workers, per = 12, 4000
 			var wg sync.WaitGroup
 			var mu sync.Mutex
 			var cprob []string
@@ -151,7 +151,7 @@ func c19n(e *env) {
 							}
 							mu.Unlock()
 						}
-						if k%10 == 0 {
+						if k%500 == 0 {
 							h.Set(common.SetRequest{Key: key, Data: []byte("x")})
 						}
 					}
@@ -172,7 +172,7 @@ func c19n(e *env) {
 		w.Count(fmt.Sprintf("nodes=%d", n))
 		w.Add(rig.Case{Desc: in, Coq: "tt", Nontrivial: n >= 2})
 	}
-	w.Res.Rule = "cluster.NewHandler over 1..8 (thorough ..32) fake memcached nodes on loopback TCP, three handler instances per node set (as listed, permuted, as listed again): bucket labels = configured addresses; each of 150 (1000) keys set through the first instance is stored on exactly the node the reference lookup over the instance's ring names and is a hit through the other two instances; then 8 connections with their own handlers route 150 keys each at the same time (every lookup equals the reference lookup); Go-side oracles only"
+	w.Res.Rule = "cluster.NewHandler over 1..8 (thorough ..32) fake memcached nodes on loopback TCP, three handler instances per node set (as listed, permuted, as listed again): bucket labels = configured addresses; each of 150 (1000) keys set through the first instance is stored on exactly the node the reference lookup over the instance's ring names and is a hit through the other two instances; then 12 connections with their own handlers route 4000 keys each at the same time (every lookup equals the reference lookup); Go-side oracles only"
 	if err := w.Finish([]string{"base.Bytes", "base.Harness"}, "unit", "(fun _ => 0%N)"); err != nil {
 		rig.Die("%v", err)
 	}
